@@ -30,7 +30,8 @@ impl Masker for LiterateHaskellMasker {
 
         let mut location = 0;
         let mut in_code_env = false;
-        let mut last_line_blank = false;
+        // The start of the file counts as a blank line: code may begin on the first line.
+        let mut last_line_blank = true;
 
         for line in source.split(|c| *c == '\n') {
             let string_form = line.to_string();
